@@ -126,8 +126,8 @@ impl<'c> Sk<'c> {
                 _ => Pat::Ignore,
             }
         };
-        // shapes: 0 single, 1 (x,y), 2 [x,y], 3 (x,(y,z)), 4 (x,y,z), 5 [x,y,z]
-        let n_shapes = if depth > 1 && self.b.inner_single { 1 } else if self.b.rich_patterns { 6 } else { 3 };
+        // shapes: 0 single, 1 (x,y), 2 [x,y], 3 (x,(y,z)), 4 (x,y,z), 5 [x,y,z], 6 (x,[y,z]), 7 ([x,y],z), 8 ((x,y),z)
+        let n_shapes = if depth > 1 && self.b.inner_single { 1 } else if self.b.rich_patterns { 9 } else { 3 };
         let shape = self.c.choose(n_shapes);
         let n_leaves = match shape {
             0 => 1,
@@ -155,7 +155,13 @@ impl<'c> Sk<'c> {
         // arrays are homogeneous; tuple leaves may have different widths
         let array_shape = shape == 2 || shape == 5;
         let first_bits = self.bits();
-        let widths: Vec<u16> = (0..n_leaves).map(|i| if array_shape || i == 0 { first_bits } else { self.bits() }).collect();
+        let mut widths: Vec<u16> = (0..n_leaves).map(|i| if array_shape || i == 0 { first_bits } else { self.bits() }).collect();
+        if shape == 6 {
+            widths[2] = widths[1];
+        }
+        if shape == 7 {
+            widths[1] = widths[0];
+        }
         let names: Vec<(String, u16)> = leaves.iter().zip(&widths).filter(|(k, _)| **k < 2).map(|(k, w)| (NAMES[*k].to_string(), *w)).collect();
         let tags: Vec<Expr> = widths.iter().map(|w| self.tag(*w)).collect();
         let tys: Vec<Ty> = widths.iter().map(|w| u(*w)).collect();
@@ -169,6 +175,21 @@ impl<'c> Sk<'c> {
                 tuple(vec![tags[0].clone(), tuple(vec![tags[1].clone(), tags[2].clone()])]),
             ),
             4 => (Pat::Tuple(vec![leaf(leaves[0]), leaf(leaves[1]), leaf(leaves[2])]), Ty::Tuple(tys.clone()), tuple(tags)),
+            6 => (
+                Pat::Tuple(vec![leaf(leaves[0]), Pat::Array(vec![leaf(leaves[1]), leaf(leaves[2])])]),
+                Ty::Tuple(vec![tys[0].clone(), Ty::array(tys[1].clone(), 2)]),
+                tuple(vec![tags[0].clone(), Expr::Array(vec![tags[1].clone(), tags[2].clone()])]),
+            ),
+            7 => (
+                Pat::Tuple(vec![Pat::Array(vec![leaf(leaves[0]), leaf(leaves[1])]), leaf(leaves[2])]),
+                Ty::Tuple(vec![Ty::array(tys[0].clone(), 2), tys[2].clone()]),
+                tuple(vec![Expr::Array(vec![tags[0].clone(), tags[1].clone()]), tags[2].clone()]),
+            ),
+            8 => (
+                Pat::Tuple(vec![Pat::Tuple(vec![leaf(leaves[0]), leaf(leaves[1])]), leaf(leaves[2])]),
+                Ty::Tuple(vec![Ty::Tuple(vec![tys[0].clone(), tys[1].clone()]), tys[2].clone()]),
+                tuple(vec![tuple(vec![tags[0].clone(), tags[1].clone()]), tags[2].clone()]),
+            ),
             _ => (Pat::Array(vec![leaf(leaves[0]), leaf(leaves[1]), leaf(leaves[2])]), Ty::array(tys[0].clone(), 3), Expr::Array(tags)),
         };
         (p, ty, e, names)
